@@ -161,7 +161,7 @@ theorem primIn_bool (G : Facts02) (cfg : Cfg) (o : Occ) (b : Bool) :
   have hpre : preOk F G cfg .boolean o (.bool b) = true := by
     unfold preOk; cases cfg.proto <;> simp [Doc.isNull]
   simp only [hpre, strOk, Bool.and_self, Bool.not_true, Bool.and_false, Bool.false_eq_true, if_false]
-  simp [leafIn, boolIn, postLeaf, Res.good, validateNative]
+  cases hb : cfg.boolPass G <;> simp [leafIn, hb, boolIn, boolPassIn, postLeaf, Res.good, validateNative]
 
 
 theorem preOk_bytes (G : Facts02) (cfg : Cfg) (p : PrimTy) (o : Occ) (bs : List Nat) (hm : cfg.proto.isMsgpack = true) :
